@@ -115,7 +115,7 @@ def run(ctx):
             raise AnalysisIncomplete("anchor vanished: %s in %s" % (n, UNIT))
 
     # ---- R1 ring index discipline ------------------------------------------------
-    r1 = ctx.rule("RING.index", "every subscript of / strided offset into the queue storage (is_speech[], buf + i*frame_size) uses an index in [0, maxlen) on every path", floor=6)
+    r1 = ctx.rule("RING.index", "every subscript of / strided offset into the queue storage (is_speech[], buf + i*frame_size) uses an index in [0, maxlen) on every path", floor=4)
     for f in fns.values():
         ring_index_rule(ctx, r1, f, SPEC)
     # cursor stores keep the cursor in [0,maxlen)
@@ -248,7 +248,7 @@ def run(ctx):
         rv = pop.canon(pop.ch(rnode)[0])
         if rv == "0":
             continue
-        ctx.check(r3c, rv == "((ep->frame_size * ep->pos) + ep->buf)".replace("ep", base), key(pop, "return"), pop.where(rnode), "ep_pop returns `%s`, not the frame at the head" % rv)
+        ctx.check(r3c, rv in ("((ep->frame_size * ep->pos) + ep->buf)".replace("ep", base), "&ep->buf[(ep->frame_size * ep->pos)]".replace("ep", base)), key(pop, "return"), pop.where(rnode), "ep_pop returns `%s`, not the frame at the head" % rv)
 
     # ---- R4 timestamp once per frame --------------------------------------------------
     proc = fns["endpointer_process"]
@@ -280,6 +280,8 @@ def run(ctx):
         for s in paths.field_stores(f, REC, "in_speech"):
             val = f.canon(s["rhs"]) if s["rhs"] is not None else s["op"]
             k = key(f, "in_speech=" + val)
+            if f is proc and val in ("0", "1"):
+                continue        # decided path by path below
             if f is proc and val == "1":
                 def g_start(fn, c, pol):
                     return paths.rel(fn, c, pol) == ("%s->start_frames" % pbase, "<", cnt)
@@ -306,17 +308,68 @@ def run(ctx):
                 ctx.ok(r5, k, f.where(s["node"]), "end of stream")
             else:
                 ctx.bad(r5, k, f.where(s["node"]), "unexpected writer of in_speech (`%s = %s`)" % (s["path"], val))
-    # return value of process: NULL or a popped frame, and a pop on every in-speech path
-    r5b = ctx.rule("PROV.process-return", "endpointer_process returns only NULL or the frame popped from the queue head; while in speech every frame pushed is matched by one pop", floor=3)
-    for rnode in proc.find("Return"):
-        if not proc.ch(rnode):
+    # endpointer_process, path by path over values (symx.run_paths): when the state flips, what is recorded
+    # with it, what is handed back
+    from .. import symx, lin as _lin
+    B = pbase
+    bad5 = {}
+    seen5 = {"start": 0, "end": 0, "stay-in": 0, "stay-out": 0}
+    for pt in symx.run_paths(proc, P):
+        if not any(c_[0] == "ep_push" for c_ in pt.calls):
+            if pt.ret is None or _lin.p_str(pt.ret) != "0":
+                bad5.setdefault("return", "endpointer_process returns `%s` without having queued the frame" % (_lin.p_str(pt.ret) if pt.ret is not None else None))
             continue
-        rv = proc.canon(proc.ch(rnode)[0], calls=True)
-        ctx.check(r5b, rv in ("0", "ep_pop(%s, 0)" % pbase), key(proc, "return=" + rv), proc.where(rnode), "endpointer_process returns `%s`" % rv)
-    # at most one pop per call
-    pops = proc.calls("ep_pop")
-    multi = any(paths.may_reach(proc, a, lambda e, b=b: e == b) for a in pops for b in pops)
-    ctx.check(r5b, not multi, key(proc, "one-pop"), proc.where(proc.root), "a path pops more than one frame per processed frame")
+        IN = pt.atoms.get(("nz", "%s->in_speech" % B))
+        pops = [i_ for i_, ev_ in enumerate(pt.events) if ev_[0] == "call" and ev_[1] == "ep_pop"]
+        flips = [(i_, ev_) for i_, ev_ in enumerate(pt.events) if ev_[0] == "store" and ev_[1] == "%s->in_speech" % B]
+        ret = _lin.p_str(pt.ret) if pt.ret is not None else None
+        if len(pops) > 1:
+            bad5["one-pop"] = "a path pops more than one frame per processed frame"
+        if ret not in ("0", "ep_pop(%s, 0)" % B) or (ret != "0") != bool(pops):
+            bad5.setdefault("return", "endpointer_process returns `%s` on a path with %d pop(s)" % (ret, len(pops)))
+        gt = pt.atoms.get(("<", "%s->start_frames" % B, cnt))
+        lt = pt.atoms.get(("<", cnt, "%s->end_frames" % B))
+        if IN is None:
+            bad5.setdefault("in_speech=1", "the decision does not depend on whether speech is in progress")
+            continue
+        if len(flips) > 1:
+            bad5.setdefault("in_speech=1", "in_speech is written twice on one path")
+            continue
+        if flips and _lin.p_str(flips[0][1][2]) == "1":
+            seen5["start"] += 1
+            if IN is not False or gt is not True:
+                bad5["in_speech=1"] = "in_speech is set without the strict test speech_count > start_frames while not in speech"
+            ss_ = pt.stored("%s->speech_start" % B)
+            if ss_ is None or _lin.p_str(ss_) != "%s->qstart_time" % B:
+                bad5["in_speech=1:speech_start"] = "speech_start is not set to the stream position of the oldest queued frame (qstart_time) where the segment starts"
+            if not pops:
+                bad5.setdefault("return", "the first frame of a segment is not handed back")
+        elif flips and _lin.p_str(flips[0][1][2]) == "0":
+            seen5["end"] += 1
+            if IN is not True or lt is not True:
+                bad5["in_speech=0"] = "in_speech is cleared without the strict test speech_count < end_frames while in speech"
+            ends = [i_ for i_, ev_ in enumerate(pt.events) if ev_[0] == "store" and ev_[1] == "%s->speech_end" % B]
+            if len(ends) != 1 or not pops or not (pops[0] < ends[0]) or _lin.p_str(pt.events[ends[0]][2]) != "%s->qstart_time" % B:
+                bad5["in_speech=0:speech_end"] = "segment end is not `qstart_time` taken after popping the last returned frame"
+        elif flips:
+            bad5["in_speech=1"] = "in_speech is set to %s" % _lin.p_str(flips[0][1][2])
+        else:
+            seen5["stay-in" if IN else "stay-out"] += 1
+            if IN and lt is not False:
+                bad5["in_speech=0"] = "speech_count < end_frames while in speech does not end the segment"
+            if not IN and gt is not False:
+                bad5["in_speech=1"] = "speech_count > start_frames while not in speech does not start a segment"
+            if IN and not pops:
+                bad5.setdefault("return", "while in speech a frame is queued without handing one back")
+            if not IN and pops:
+                bad5.setdefault("return", "a frame is handed back outside a segment")
+    if not all(seen5.values()):
+        bad5.setdefault("in_speech=1", "expected start, end, in-segment and out-of-segment paths (%s)" % seen5)
+    for k_ in ("in_speech=1", "in_speech=1:speech_start", "in_speech=0", "in_speech=0:speech_end"):
+        ctx.check(r5, k_ not in bad5, key(proc, k_), proc.where(proc.root), bad5.get(k_, ""))
+    r5b = ctx.rule("PROV.process-return", "endpointer_process returns only NULL or the frame popped from the queue head; while in speech every frame pushed is matched by one pop", floor=2)
+    for k_ in ("return", "one-pop"):
+        ctx.check(r5b, k_ not in bad5, key(proc, k_), proc.where(proc.root), bad5.get(k_, ""))
 
     # ---- R7 speech counter index set -------------------------------------------------------
     cntf = fns["ep_speech_count"]
@@ -357,7 +410,8 @@ def run(ctx):
     # the per-frame increment is in the branch where the popped frame is speech
     for s in incs:
         if es.canon(s["rhs"], subst=False) == "%s->frame_size" % eb:
-            g = paths.guarded(es, s["node"], lambda f, c, pol: pol and f.k(f.strip(c)) == "DeclRef" and f.nodes[f.strip(c)]["decl"] in f.addr_taken)
+            flags = set(es.nodes[i]["name"] for i in es.walk() if es.k(i) == "DeclRef" and es.nodes[i].get("decl") in es.addr_taken)
+            g = paths.guarded(es, s["node"], lambda f, c, pol: paths.cond_atoms(f, c, pol, subst=False)[1] is True and paths.cond_atoms(f, c, pol, subst=False)[0] in flags)
             ctx.check(r8, g, key(es, "count-speech-only"), es.where(s["node"]), "a popped non-speech frame is counted into the returned segment")
     # trailing frame guard nsamp <= frame_size dominates everything after
     guards = [r for r in es.find("Return") if paths.guarded(es, r, lambda f, c, pol: paths.rel(f, c, pol, subst=False) == ("%s->frame_size" % eb, "<", es.params[2][0]))]
